@@ -8,26 +8,28 @@ namespace Cjet.Daemon.C01
 open Cjet Cjet.Json Cjet.Daemon
 
 /-- what a handler (a function returning the new context and the response) guarantees -/
-structure HOK (cfg : Config) (x : Ctx) (req : Json) (r : Ctx × Option Json) : Prop where
+structure HOK (cfg : Config) (x : Ctx) (req : Json) (pc : Nat) (r : Ctx × Option Json) : Prop where
   step : ∃ ns, Emits x r.1 ns ∧ StepOK cfg x.st r.1.st ns
   resp : ∀ j, r.2 = some j → IsResp j
-  succ : (∃ c f, HasFetch r.1.st c f ∧ ¬ HasFetch x.st c f) → r.2 = successFromRequest req
+  /-- a fetch is installed only for the requesting connection `pc`, and then the response is the
+      success response -/
+  succ : ∀ c f, HasFetch r.1.st c f → ¬ HasFetch x.st c f → r.2 = successFromRequest req ∧ c = pc
 
-theorem HOK.transN {cfg : Config} {x : Ctx} {req : Json} {r : Ctx × Option Json} {ns : List (Nat × Notif)}
+theorem HOK.transN {cfg : Config} {pc : Nat} {x : Ctx} {req : Json} {r : Ctx × Option Json} {ns : List (Nat × Notif)}
     (he : Emits x r.1 ns) (ht : TransN cfg x.st r.1.st ns) (hr : ∀ j, r.2 = some j → IsResp j) :
-    HOK cfg x req r :=
-  ⟨⟨ns, he, ht.stepOK⟩, hr, fun ⟨c, f, h1, h2⟩ => absurd (ht.noNew c f h1) h2⟩
+    HOK cfg x req pc r :=
+  ⟨⟨ns, he, ht.stepOK⟩, hr, fun c f h1 h2 => absurd (ht.noNew c f h1) h2⟩
 
-theorem HOK.quiet {cfg : Config} {x : Ctx} {req : Json} {r : Ctx × Option Json} (inv : Inv cfg x.st)
-    (hq : Quiet x r.1) (hr : ∀ j, r.2 = some j → IsResp j) : HOK cfg x req r :=
+theorem HOK.quiet {cfg : Config} {pc : Nat} {x : Ctx} {req : Json} {r : Ctx × Option Json} (inv : Inv cfg x.st)
+    (hq : Quiet x r.1) (hr : ∀ j, r.2 = some j → IsResp j) : HOK cfg x req pc r :=
   HOK.transN hq.emits (hq.transN inv) hr
 
-theorem HOK.err {cfg : Config} {x : Ctx} {req : Json} (inv : Inv cfg x.st) (req' : Json) (code : Int)
-    (tag : String) (reason : Bytes) : HOK cfg x req (x, errorFromRequest req' code tag reason) :=
+theorem HOK.err {cfg : Config} {pc : Nat} {x : Ctx} {req : Json} (inv : Inv cfg x.st) (req' : Json) (code : Int)
+    (tag : String) (reason : Bytes) : HOK cfg x req pc (x, errorFromRequest req' code tag reason) :=
   HOK.quiet inv (Quiet.refl x) (fun _ h => isResp_errorFromRequest h)
 
-theorem HOK.res {cfg : Config} {x : Ctx} {req : Json} (inv : Inv cfg x.st) (req' result : Json) :
-    HOK cfg x req (x, resultFromRequest req' result) :=
+theorem HOK.res {cfg : Config} {pc : Nat} {x : Ctx} {req : Json} (inv : Inv cfg x.st) (req' result : Json) :
+    HOK cfg x req pc (x, resultFromRequest req' result) :=
   HOK.quiet inv (Quiet.refl x) (fun _ h => isResp_resultFromRequest h)
 
 theorem getParamsAndPath_err {req : Json} {r : Option Json} (h : getParamsAndPath req = .err r) :
@@ -90,8 +92,8 @@ theorem getCredentials_err {req : Json} {r : Option Json} (h : getCredentials re
 /-- quiet work plus a response that is no notification -/
 def QOK (x0 : Ctx) (r : Ctx × Option Json) : Prop := Quiet x0 r.1 ∧ ∀ j, r.2 = some j → IsResp j
 
-theorem QOK.hok {cfg : Config} {x : Ctx} {req : Json} {r : Ctx × Option Json} (inv : Inv cfg x.st)
-    (h : QOK x r) : HOK cfg x req r := HOK.quiet inv h.1 h.2
+theorem QOK.hok {cfg : Config} {pc : Nat} {x : Ctx} {req : Json} {r : Ctx × Option Json} (inv : Inv cfg x.st)
+    (h : QOK x r) : HOK cfg x req pc r := HOK.quiet inv h.1 h.2
 
 /-! `setOrCall` cut into pieces with one decision each -/
 
@@ -191,15 +193,15 @@ theorem routeTimeout_q {cfg : Config} {x0 x : Ctx} (hq : Quiet x0 x) (p : Peer) 
     · exact ⟨hq, fun _ h => isResp_errorFromRequest h⟩
     · exact routeStore_q hq ..
 
-theorem routeBody_ok {cfg : Config} {x : Ctx} (inv : Inv cfg x.st) (p : Peer) (req params : Json)
+theorem routeBody_ok {cfg : Config} {pc : Nat} {x : Ctx} (inv : Inv cfg x.st) (p : Peer) (req params : Json)
     (path : Bytes) (e : Element) (isState : Bool) (originId : Option Json) :
-    HOK cfg x req (routeBody cfg x p req params path e isState originId) := by
+    HOK cfg x req pc (routeBody cfg x p req params path e isState originId) := by
   unfold routeBody
   exact (routeTimeout_q (quiet_of_st x { x with st := { x.st with uuid := (x.st.uuid + 1) % 4294967296 } }
     rfl ⟨rfl, rfl, rfl, rfl⟩) ..).hok inv
 
-theorem setOrCall_ok {cfg : Config} {x : Ctx} (inv : Inv cfg x.st) (p : Peer) (req : Json) (isState : Bool) :
-    HOK cfg x req (setOrCall cfg x p req isState) := by
+theorem setOrCall_ok {cfg : Config} {pc : Nat} {x : Ctx} (inv : Inv cfg x.st) (p : Peer) (req : Json) (isState : Bool) :
+    HOK cfg x req pc (setOrCall cfg x p req isState) := by
   rw [setOrCall_eq]
   split
   · next r hr => exact HOK.quiet inv (Quiet.refl x) (getParamsAndPath_err hr)
@@ -208,8 +210,8 @@ theorem setOrCall_ok {cfg : Config} {x : Ctx} (inv : Inv cfg x.st) (p : Peer) (r
       | exact HOK.err inv ..
       | exact routeBody_ok inv ..
 
-theorem configReq_ok {cfg : Config} {x : Ctx} (inv : Inv cfg x.st) (p : Peer) (req : Json) :
-    HOK cfg x req (configReq x p req) := by
+theorem configReq_ok {cfg : Config} {pc : Nat} {x : Ctx} (inv : Inv cfg x.st) (p : Peer) (req : Json) :
+    HOK cfg x req pc (configReq x p req) := by
   unfold configReq
   split
   · exact HOK.err inv ..
@@ -222,13 +224,13 @@ theorem configReq_ok {cfg : Config} {x : Ctx} (inv : Inv cfg x.st) (p : Peer) (r
       · exact CoreEq.of_updatePeer _ _ p.conn (fun q => { q with name := some n }) rfl rfl rfl (fun _ => ⟨rfl, rfl⟩)
     · exact HOK.err inv ..
 
-theorem infoReq_ok {cfg : Config} {x : Ctx} (inv : Inv cfg x.st) (req : Json) :
-    HOK cfg x req (infoReq cfg x req) := by
+theorem infoReq_ok {cfg : Config} {pc : Nat} {x : Ctx} (inv : Inv cfg x.st) (req : Json) :
+    HOK cfg x req pc (infoReq cfg x req) := by
   unfold infoReq
   exact HOK.res inv ..
 
-theorem getReq_ok {cfg : Config} {x : Ctx} (inv : Inv cfg x.st) (p : Peer) (req : Json) :
-    HOK cfg x req (getReq cfg x p req) := by
+theorem getReq_ok {cfg : Config} {pc : Nat} {x : Ctx} (inv : Inv cfg x.st) (p : Peer) (req : Json) :
+    HOK cfg x req pc (getReq cfg x p req) := by
   unfold getReq
   split
   · exact HOK.err inv ..
@@ -236,8 +238,8 @@ theorem getReq_ok {cfg : Config} {x : Ctx} (inv : Inv cfg x.st) (p : Peer) (req 
     · exact HOK.err inv ..
     · exact HOK.res inv ..
 
-theorem passwdReq_ok {cfg : Config} {x : Ctx} (inv : Inv cfg x.st) (p : Peer) (req : Json) :
-    HOK cfg x req (passwdReq x p req) := by
+theorem passwdReq_ok {cfg : Config} {pc : Nat} {x : Ctx} (inv : Inv cfg x.st) (p : Peer) (req : Json) :
+    HOK cfg x req pc (passwdReq x p req) := by
   unfold passwdReq
   split
   · next r hr => exact HOK.quiet inv (Quiet.refl x) (getCredentials_err hr)
